@@ -59,5 +59,6 @@ fn main() {
             Err(e) => s = format!("(glue-error parse-{})", e),
         }
         writeln!(out, "{}", s).unwrap();
+        out.flush().unwrap();     // one line per case, visible at once: a crash or hang is attributed to the right case
     }
 }
